@@ -12,7 +12,7 @@ Steps (all in the scratch worktree, never in /repo):
 import argparse, json, os, shutil, subprocess, sys
 
 HERE = os.path.dirname(os.path.dirname(os.path.abspath(__file__)))
-ENV = dict(os.environ, CARGO_NET_OFFLINE="true", RUSTUP_TOOLCHAIN="1.88.0", CARGO_TARGET_DIR="/tmp/seed-target")
+ENV = dict(os.environ, CARGO_NET_OFFLINE="true", RUSTUP_TOOLCHAIN="1.88.0", CARGO_TARGET_DIR=os.environ.get("SEED_TARGET", "/tmp/seed-target"))
 
 
 def sh(cmd, cwd, env=ENV, ok=None):
@@ -36,7 +36,7 @@ def main():
     assert patch.strip(), "empty source patch"
     open(os.path.join(out, "patch.diff"), "w").write(patch)
     rc, status = sh("git status --porcelain", wt)
-    untracked = [l[3:] for l in status.splitlines() if l.startswith("??") and not l[3:].startswith("target")]
+    untracked = [l[3:].rstrip("/") for l in status.splitlines() if l.startswith("??") and not l[3:].startswith("target")]
     other = [l[3:] for l in status.splitlines() if l[:2].strip() == "M" and l[3:] not in a.src]
     rc, reg = sh("git diff -- " + " ".join(other), wt) if other else (0, "")
     if reg.strip():
@@ -75,7 +75,7 @@ def main():
     rc3, o3 = sh(f"{HERE}/tools/baseline.sh {wt}", wt)
     ran.append({"cmd": "tools/baseline.sh <worktree> (pinned 899-test suite, change applied, demo removed)", "exit": rc3, "tail": o3.strip().splitlines()[-3:]})
     # 4. my check
-    ev = "/tmp/seed-ev"
+    ev = "/tmp/seed-ev-" + a.id
     shutil.rmtree(ev, ignore_errors=True); os.makedirs(ev)
     env = dict(os.environ, VERIF_REPO=wt, VERIF_EVIDENCE_DIR=ev)
     rc4, o4 = sh(f"./check {a.prop}" + (" --tier thorough" if a.tier == "thorough" else ""), HERE, env=env)
